@@ -743,3 +743,16 @@ func verifLemmaMergeOfEmptyLogChangesNothing(a, b *IPFSLog, k string) (bool, boo
 //@   ensures [same-set-same-strict-order-same-sequence] om(r1).keys[i] == om(r2).keys[i]
 func verifLemmaSortedSequencesAgree(fn func(a, b iface.IPFSLogEntry) (int, error), r1, r2 iface.IPFSLogOrderedEntries, i int) {
 }
+
+// C05 (last clause): a later linearised view contains the earlier one as a subsequence. Both views are duplicate-free and
+// ascending for the same ordering (C03), the later one holds every hash of the earlier one (append-only, C05), and the
+// ordering is strict on distinct hashes: then any two hashes of the earlier view keep their relative order in the later.
+//@ func verifLemmaEarlierViewIsASubsequence
+//@   lemma
+//@   requires isOM(r1) && isOM(r2) && preorder(fn) && (forall a string, b string :: ordH(fn, a, b) == 0 ==> a == b)
+//@   requires (forall k string :: has(omv(r1), k) ==> has(omv(r2), k)) && ascendingKeys(fn, r1) && ascendingKeys(fn, r2)
+//@   requires 0 <= i && i < j && j < len(om(r1).keys)
+//@   requires 0 <= p && p < len(om(r2).keys) && 0 <= q && q < len(om(r2).keys) && om(r2).keys[p] == om(r1).keys[i] && om(r2).keys[q] == om(r1).keys[j]
+//@   ensures [relative-order-is-kept] p < q
+func verifLemmaEarlierViewIsASubsequence(fn func(a, b iface.IPFSLogEntry) (int, error), r1, r2 iface.IPFSLogOrderedEntries, i, j, p, q int) {
+}
